@@ -803,10 +803,33 @@ func runL5Conc(r *rng.R, threads, perThread int) (obs *l5ConcObs) {
 						}
 						mu.Unlock()
 					}
+					// in a third of the transactions one more statement is issued through the
+					// transaction by a helper goroutine while this one ends it: it runs on the
+					// transaction's connection before the end, or not at all
+					var raced chan struct{}
+					if !stress && tr.Chance(1, 3) {
+						rs := stmts[tr.Intn(nS)]
+						rshape := 1 + tr.Intn(2)
+						rctx := context.WithValue(context.Background(), fakedrv.CtxKey{}, fmt.Sprintf("d%d-k%d-x%d", di+1, l5Tag(bulk[rs], rshape), txid))
+						rq := tx.Query(rctx, rs, l5ArgsFor(bulk[rs], rshape)...)
+						raced = make(chan struct{})
+						rNoOut := noOut[rs]
+						go func() {
+							defer close(raced)
+							defer func() { recover() }()
+							l5All(rq, rNoOut)
+						}()
+						if tr.Chance(1, 2) {
+							runtime.Gosched()
+						}
+					}
 					if tr.Chance(1, 2) {
 						tx.Commit()
 					} else {
 						tx.Rollback()
+					}
+					if raced != nil {
+						<-raced
 					}
 					if tr.Chance(1, 3) {
 						// another transaction is begun on this goroutine; the finished one stays
@@ -896,14 +919,25 @@ func runL5Conc(r *rng.R, threads, perThread int) (obs *l5ConcObs) {
 		prepared := map[int]string{}
 		closed := map[int]bool{}
 		txConn := map[int]int{}
+		connTx := map[int]int{}   // connection -> the transaction open on it
+		txEnded := map[int]bool{} // transactions whose commit/rollback the driver has seen
 		for _, e := range d.state.Events() {
 			var txid int
 			if n, _ := fmt.Sscanf(e.Ctx, "txB-%d", &txid); n == 1 && e.Kind == "begin" {
 				txConn[txid] = e.Conn
+				connTx[e.Conn] = txid
+			}
+			if e.Kind == "commit" || e.Kind == "rollback" {
+				if id, ok := connTx[e.Conn]; ok {
+					txEnded[id] = true
+					delete(connTx, e.Conn)
+				}
 			}
 			if i := strings.LastIndex(e.Ctx, "-x"); i >= 0 && (e.Kind == "prepare" || e.Kind == "exec" || e.Kind == "query") {
 				if n, _ := fmt.Sscanf(e.Ctx[i:], "-x%d", &txid); n == 1 {
-					if c, ok := txConn[txid]; !ok || c != e.Conn {
+					// (on another connection, or - the connection may have been handed out again -
+					// after the driver saw the transaction end)
+					if c, ok := txConn[txid]; !ok || c != e.Conn || txEnded[txid] {
 						obs.TxStray++
 					}
 				}
